@@ -1,8 +1,12 @@
-"""C17 - see lib/srvprop.py (family table, generators) and spec/H2Server.tla, spec/H2ServerTrace.tla."""
+"""C17 - see lib/srvprop.py (family table, generators) and spec/H2Server.tla, spec/H2ServerTrace.tla.
+Goroutine-level model: spec/H2Teardown.tla (after the peer has gone every loop of the connection ends: C17_Exit,
+NoLoopLeft, under weak fairness of the server's own steps); the as-found configuration must violate."""
 import srvprop
 
 
 def run(ctx):
+    ctx.model_check('H2Teardown', 'H2Teardown.cfg', workers=8)
+    ctx.model_expect_violation('H2Teardown', 'H2Teardown_asfound.cfg', 'C17_Exit', workers=8)
     srvprop.run(ctx, 'C17')
 
 
